@@ -1,5 +1,8 @@
 import RLV.Lemmas.NoSpin
 import RLV.Gen.KeyStack
+import RLV.Lemmas.TokTotal
+import RLV.Lemmas.Move
+import RLV.Lemmas.KillMore
 /-! C01 — Readline never crashes, spins or deadlocks on any keyboard input (property theorems).
 
 `MLoop.iter` is the model of one iteration of the `for` loop of `Shell.Readline` (readline.go) as far
@@ -16,7 +19,12 @@ with any stale dispatcher state), every macro — self-calling ones included —
 the commands within `WB`: the loop cannot run forever without reading the terminal, and the call on
 any finite sequence of reads ends returned or blocked in a read.
 
-Not in the model (decided by the session oracle only): what the commands themselves do to the line
+The commands that ARE modelled (the kill commands of C16 and the movements of C06, compared with the
+real closures by `rlv-diff -model kill|killr|move`) are proved never to panic, from any state
+(`modelled_commands_never_panic`): the word tokenizer keeps its index inside the tokens, the kills cut inside
+the buffer.
+
+Not in the model (decided by the session oracle only): what the other commands do to the line
 (the panics found there are the `fix:` commits listed in known_findings.json), the goroutines of the
 key reader, the display. -/
 namespace RLV.Props.C01
@@ -132,5 +140,23 @@ example :
     let s0 : LS := { eng := { mainTbl := tbl, keys := { buf := [97] } } }
     Settled (iterN ⟨fun _ _ s => s⟩ 40 s0) ∧ ¬ Settled (iterN ⟨fun _ _ s => s⟩ 33 s0) := by
   decide
+
+/-- C01 (command bodies, the modelled ones): from EVERY state — any buffer, any cursor in or out of
+range, any selection fields, any numeric argument — the models of forward-char, backward-char,
+forward-word and backward-word return (no index out of range in the tokenizer, `Line.ForwardEnd`,
+`Line.Backward`), and so do, on buffers without NUL runes, kill-line, backward-kill-line, kill-whole-line
+and kill-region. -/
+theorem modelled_commands_never_panic (s : Kill.St) (n : Int) :
+    (∃ s1, Move.forwardChar s n = .ok s1) ∧ (∃ s1, Move.backwardChar s n = .ok s1) ∧
+    (∃ s1, Move.forwardWord s n = .ok s1) ∧ (∃ s1, Move.backwardWord s n = .ok s1) ∧
+    ((∀ c ∈ s.line, c ≠ 0) →
+      (∃ s1, Kill.killLine s = .ok s1) ∧ (∃ s1, Kill.backwardKillLine s = .ok s1) ∧
+      (∃ s1, Kill.killWholeLine s = .ok s1) ∧ (∃ s1, Kill.killRegion s = .ok s1)) := by
+  refine ⟨Move.forwardChar_total s n, Move.backwardChar_total s n, Move.forwardWordN_total _ s,
+    Move.backwardWordN_total _ s, fun hnz => ⟨?_, ?_, ?_, ?_⟩⟩
+  · obtain ⟨s1, h, _⟩ := Kill.killLine_yank s hnz; exact ⟨s1, h⟩
+  · obtain ⟨s1, h, _⟩ := Kill.backwardKillLine_yank s hnz; exact ⟨s1, h⟩
+  · obtain ⟨s1, h, _⟩ := Kill.killWholeLine_yank s hnz; exact ⟨s1, h⟩
+  · obtain ⟨s1, h, _⟩ := Kill.killRegion_yank s hnz; exact ⟨s1, h⟩
 
 end RLV.Props.C01
